@@ -214,6 +214,9 @@ def run(pid, level="model_checking"):
         for err in traces.errors(v):
             ev = traces.failing_event(tr, err)
             own = traces.owner(ev["a"], err["clause"], ev["exc"])
+            if own == "C10" and pid != "C10":
+                # an operation through a handle is also an operation of its own kind
+                own = traces.owner({k: v for k, v in ev["a"].items() if k != "via"}, err["clause"], ev["exc"])
             if tid in own_all and err["clause"] in ("result", "file", "raises"):
                 own = pid                       # in these traces every read follows a remove / update of this property
             if own != pid:
